@@ -105,6 +105,8 @@ func c15Cases(run *ev.Run) []c15Case {
 				// the receiver is draining a message it has already decided to reject
 				// (declared size above its read limit) when the context ends
 				add(h2, p, svc.ServerStream, "partial", "inside-blocked-Receive-draining-oversize", []string{"CALL", "HOOK:R", "R", "CP"}, dl)
+				// ... and when only part of an envelope prefix has arrived
+				add(h2, p, svc.ServerStream, "partial", "inside-blocked-Receive-mid-prefix", []string{"CALL", "R", "HOOK:R", "R", "CP"}, dl)
 				// the handler's own context ends (server-side timeout / shutdown) while the
 				// client's is alive; the handler returns ctx.Err()
 				add(h2, p, svc.Unary, "server-side", "handler-context-ends", []string{"CALL"}, dl)
@@ -164,7 +166,7 @@ func c15PointCases(run *ev.Run) []c15Case {
 }
 
 func c15(run *ev.Run) int {
-	run.SetRule("instants = cancellation or deadline expiry before every operation of a bidi base program, before/between/after the operations of the typed unary, client-stream and server-stream APIs, and - triggered from a second goroutine once the operation has been blocked for 60 ms - inside a blocked Send (peer not reading), Receive (peer waiting; also mid-message with only part of an envelope delivered, and while draining a message above the read limit), CloseAndReceive, unary call and CloseResponse; and inside the library: at the n-th time (n=1, thorough 1..3) the HTTP call reaches each of its 8 instrumented yield points (before the pipe write, closing the write side, before/after the HTTP round trip, after response validation, before a body read, before the drain in CloseResponse, before SetError closes the pipe), one case at a time; x 3 protocols x HTTP/1.1 + HTTP/2 x {cancel, deadline}; handlers block on their own ctx.Done() so they are still running at the instant; oracle: every operation failing after the instant has code canceled / deadline_exceeded (Send may return an error wrapping io.EOF), Receive never ends cleanly, unary never succeeds, handler context done (HTTP/2), every op returns (watchdog); distinct by (HTTP version, protocol, kind, instant, mode)")
+	run.SetRule("instants = cancellation or deadline expiry before every operation of a bidi base program, before/between/after the operations of the typed unary, client-stream and server-stream APIs, and - triggered from a second goroutine once the operation has been blocked for 60 ms - inside a blocked Send (peer not reading), Receive (peer waiting; also mid-message with only part of an envelope delivered, mid-prefix with two of the five prefix bytes delivered, and while draining a message above the read limit), CloseAndReceive, unary call and CloseResponse; and inside the library: at the n-th time (n=1, thorough 1..3) the HTTP call reaches each of its 8 instrumented yield points (before the pipe write, closing the write side, before/after the HTTP round trip, after response validation, before a body read, before the drain in CloseResponse, before SetError closes the pipe), one case at a time; x 3 protocols x HTTP/1.1 + HTTP/2 x {cancel, deadline}; handlers block on their own ctx.Done() so they are still running at the instant; oracle: every operation failing after the instant has code canceled / deadline_exceeded (Send may return an error wrapping io.EOF), Receive never ends cleanly, unary never succeeds, handler context done (HTTP/2), every op returns (watchdog); distinct by (HTTP version, protocol, kind, instant, mode)")
 	run.Assume("on HTTP/1.1 net/http propagates a client disconnect to the handler context only after the request body was read; the handler-context clause is enforced on HTTP/2 and counted when observed on HTTP/1.1")
 	reg := svc.NewRegistry()
 	hs := svc.Handlers(reg)
@@ -175,7 +177,10 @@ func c15(run *ev.Run) int {
 			_, _ = io.Copy(io.Discard, req.Body)
 			ct := req.Header.Get("Content-Type")
 			w.Header().Set("Content-Type", ct)
-			if strings.HasPrefix(ct, "application/grpc") || strings.HasPrefix(ct, "application/connect+") {
+			if req.Header.Get("X-Verif-Partial") == "prefix" {
+				// one complete message, then two of the five prefix bytes of the next
+				_, _ = w.Write([]byte{0, 0, 0, 0, 2, 0x08, 0x01, 0, 0})
+			} else if strings.HasPrefix(ct, "application/grpc") || strings.HasPrefix(ct, "application/connect+") {
 				_, _ = w.Write([]byte{0, 0, 0, 0, 100, 1, 2, 3, 4, 5, 6, 7, 8, 9, 10})
 			} else {
 				// unary Connect: the first half of a message, then silence
@@ -252,7 +257,11 @@ func c15Run(run *ev.Run, srv *svc.Server, c c15Case) {
 	defer cs.Tap.Forget(call.ID)
 	if partial {
 		// route to the raw partial-message responder
-		opts := append(svc.ProtoOpts(c.proto, "proto"), connect.WithInterceptors(headerIcept{"X-Verif-Partial", "1"}))
+		mode := "1"
+		if strings.Contains(c.name, "mid-prefix") {
+			mode = "prefix"
+		}
+		opts := append(svc.ProtoOpts(c.proto, "proto"), connect.WithInterceptors(headerIcept{"X-Verif-Partial", mode}))
 		if strings.Contains(c.name, "draining-oversize") {
 			opts = append(opts, connect.WithReadMaxBytes(50)) // the responder declares 100 bytes
 		}
